@@ -507,6 +507,76 @@ async fn stress(rep: &Report, rng: &mut Rng, next_seq: &mut u32, rounds: u64) {
     check(rep, None, &out, "threads", false);
 }
 
+/// Controlled schedule through the pause point before `inbox.close()`: the idle instance is
+/// held there, requests are queued while it is held (they become its leftover messages), it is
+/// released, and further requests are made right away (they hit the closing / closed sender and
+/// restart the remote with leftover + new message).  One remote only, so the held instance is
+/// the one under observation.
+async fn gated(rep: &Report, rng: &mut Rng, next_seq: &mut u32, rounds: u64) {
+    gate::take_events();
+    set_idle_timeout_override(Some(Duration::from_millis(2)));
+    let mut map = RemoteMap::new(AddressLookupServices::default());
+    let mut made: Vec<Made> = Vec::new();
+    let mut cleanups = 0u32;
+    let r = 0u8;
+    async fn req(map: &mut RemoteMap, made: &mut Vec<Made>, next_seq: &mut u32, r: u8) {
+        *next_seq += 1;
+        let seq = *next_seq;
+        let (tx, rx) = oneshot::channel();
+        gate::log("harness.request", &[("seq", seq.to_string()), ("remote", r.to_string())]);
+        map.resolve_remote(EndpointAddr::from_parts(remote(r), [TransportAddr::Ip(seq_addr(seq))]), tx).await;
+        made.push(Made { seq, r, with_addr: true, rx: Some(rx), reply: Reply::Pending });
+    }
+    for i in 0..rounds {
+        gate::arm(PAUSE_CLOSE, 1);
+        req(&mut map, &mut made, next_seq, r).await;
+        let held = tokio::task::block_in_place(|| gate::wait_held(PAUSE_CLOSE, Duration::from_secs(5)));
+        if !held {
+            // a late arrival must not stay blocked (it would hold every later request back)
+            gate::reset();
+            rep.inconclusive("close-gate-not-reached");
+            rep.note(format!("gate miss in round {i}: last events {:?}", ev_lines(&gate::events()).into_iter().rev().take(4).collect::<Vec<_>>()));
+            collect(&mut map, &mut made, Duration::from_secs(30)).await;
+            continue;
+        }
+        // queued while the instance is held before closing its inbox: leftover messages
+        let k1 = rng.range(0, 3);
+        for _ in 0..k1 {
+            req(&mut map, &mut made, next_seq, r).await;
+        }
+        gate::release(PAUSE_CLOSE);
+        // seeded 0..300 us: from "racing with the close" to "after the instance stopped"
+        let wait = Duration::from_micros(rng.below(300));
+        let t = Instant::now();
+        while t.elapsed() < wait {
+            tokio::task::yield_now().await;
+        }
+        let k2 = rng.range(1, 3);
+        for _ in 0..k2 {
+            req(&mut map, &mut made, next_seq, r).await;
+            if rng.bool() && n0_future::future::poll_once(map.cleanup()).await.is_some() {
+                cleanups += 1;
+            }
+        }
+        rep.count("gated.rounds_imposed", 1);
+        if k1 > 0 {
+            rep.count("gated.rounds_with_requests_queued_while_held", 1);
+        }
+        if i % 8 == 7 {
+            collect(&mut map, &mut made, Duration::from_secs(30)).await;
+        }
+    }
+    gate::disarm(PAUSE_CLOSE);
+    collect(&mut map, &mut made, Duration::from_secs(30)).await;
+    tokio::time::sleep(Duration::from_millis(20)).await;
+    cleanups += drain_cleanup(&mut map).await;
+    drop(map);
+    tokio::time::sleep(Duration::from_millis(20)).await;
+    set_idle_timeout_override(None);
+    let out = Outcome { made, events: gate::take_events(), cleanups };
+    check(rep, None, &out, "gated", false);
+}
+
 fn main() {
     let a = args();
     let rep = Report::new(
@@ -558,6 +628,12 @@ fn main() {
     let mut rng = Rng::derive(a.seed, "C21-threads", 0);
     rt.block_on(stress(&rep, &mut rng, &mut next_seq, a.pick(8_000, 40_000)));
     gate::reset();
+    // ---- (c) controlled schedule at the close hand-off
+    gate::install();
+    let mut rng = Rng::derive(a.seed, "C21-gated", 0);
+    rt.block_on(gated(&rep, &mut rng, &mut next_seq, a.pick(200, 3_000)));
+    gate::reset();
+    rep.require("gated.rounds_with_requests_queued_while_held", 50);
     rep.set_extra("virtual_seconds", json!(t_virtual));
 
     rep.require("virtual.actor_starts", 1_000);
